@@ -347,9 +347,13 @@ def _exempt_sets_exact(repo: Repo, res: Result, m: S.SearchModel, subj: str, own
             if ops and all(op.what.endswith("." + S.NODE_ATTR) for op in ops):
                 continue  # judged as [sub-tree adjustment]
             if kind == "bind":
-                # a set computed from the sub-tree set itself (`S = S - {..}`): the parts taken out / put in are judged as set operations
-                if any(isinstance(x, ast.Name) and x.id == name for e in elts for x in ast.walk(e)) or any(S._is_base_of(site.call, e) for site in m.subtree_sites for e in elts):
+                # a set computed from the sub-tree set itself (`S = S - E`, `S = get_all_submodules_of(..) - E`): what is taken out is E
+                based = any(isinstance(x, ast.Name) and x.id == name for e in elts for x in ast.walk(S.strip(e))) or any(S._is_base_of(site.call, e) for site in m.subtree_sites for e in elts)
+                subs = [x for e in elts for x in S._subtrahends(e) if not S._is_empty_collection(x)]
+                if based and not subs:
                     continue
+                if based:
+                    kind, elts = "shrink", subs
             n += 1
             key = repo.key(fi, st) + " [exempt set]"
             prov: set[str] = set()
